@@ -128,6 +128,11 @@ fn run_check(id: &str, tier: Tier) -> i32 {
             r.parts.push(c04::part_sweep(tier));
             finish(r)
         }
+        "C06" => {
+            let mut r = Report::new("C06", tier, "exploration");
+            r.parts.push(c19::part_c06_core(tier));
+            finish(r)
+        }
         "C07" => {
             let mut r = Report::new("C07", tier, "exploration");
             r.parts.push(c07::part_parse(tier));
